@@ -12,10 +12,12 @@ run C06-a C06
 run C07-b C07
 run C08-a C08
 run C09-a C09 C13
+run C10-b C10
 run C11-b C11
 run C12-b C12
 run C13-a C13
 run C14-b C14
 run C15-b C15
 run C16-b C16
+run C17-b C17
 run C20-b C20
